@@ -1,4 +1,5 @@
 """C15 - delivery follows the current topology under connect / disconnect / destroy / gc."""
+import gc
 import json, os, random, sys
 sys.path.insert(0, os.path.dirname(os.path.abspath(__file__)))
 import common, topofam
@@ -115,6 +116,20 @@ def gen(rng, tier):
         held.add(i)
         ups[i] = list(u)
         return i
+    def max_paths(extra=None):
+        """largest number of distinct source-to-node paths (a diamond ladder doubles it per layer: keep histories
+        whose single emit cannot fan into more than a few dozen deliveries)"""
+        paths = {}
+        worst = 1
+        for i in range(len(kinds) + (1 if extra and extra[0] == "new" else 0)):
+            u = list(ups.get(i, []))
+            if extra and extra[0] == "new" and i == len(kinds):
+                u = list(extra[1])
+            if extra and extra[0] == "connect" and i == extra[2]:
+                u = u + [extra[1]]
+            paths[i] = max(1, sum(paths.get(a, 1) for a in u))
+            worst = max(worst, paths[i])
+        return worst
     new("pipe", [])
     if rng.random() < 0.7:
         new("pipe", [])
@@ -127,12 +142,11 @@ def gen(rng, tier):
             kind = rng.choice(["pipe", "pipe", "sink", "sink", "zip", "combine"])
             if kind == "sink":
                 new(kind, [rng.choice(non_sinks)])
-            elif kind == "pipe":
-                k = rng.choice([0, 1, 1, 2])
-                new(kind, rng.sample(non_sinks, min(k, len(non_sinks))))
             else:
-                k = rng.choice([1, 2, 2, 3])
-                new(kind, rng.sample(non_sinks, min(k, len(non_sinks))))
+                k = rng.choice([0, 1, 1, 2]) if kind == "pipe" else rng.choice([1, 2, 2, 3])
+                u_new = rng.sample(non_sinks, min(k, len(non_sinks)))
+                if max_paths(("new", u_new)) <= 32:
+                    new(kind, u_new)
         elif u < 0.55:
             if non_sinks:
                 val[0] += 1
@@ -141,8 +155,9 @@ def gen(rng, tier):
             cands = [(a, b) for a in non_sinks for b in sorted(held) if a < b and a not in ups[b] and b not in destroyed]
             if cands:
                 a, b = rng.choice(cands)
-                ops.append(["connect", a, b])
-                ups[b].append(a)
+                if max_paths(("connect", a, b)) <= 32:
+                    ops.append(["connect", a, b])
+                    ups[b].append(a)
         elif u < 0.82:
             cands = [(a, b) for b in sorted(held) for a in ups[b] if a in held]
             if cands and rng.random() < 0.9:
@@ -269,6 +284,8 @@ def run(prop, tier, seed, replay=None):
             out.violation("C15/harness-crash", "driver crashed: %r" % (e,), {"case": c}, no_input=True)
             continue
         cos.append((c, o))
+        if len(cos) % 100 == 0:
+            gc.freeze()      # the recorded traces are permanent: keep the per-case full collections cheap
         for op in c["ops"]:
             hist[op[0]] = hist.get(op[0], 0) + 1
         if any(ob["deliv"] for ob in o) and any(op[0] in ("connect", "disconnect", "destroy", "drop") for op in c["ops"]):
